@@ -43,11 +43,11 @@ func c04canonLeaf(m *meta.Module, path []string, name string, isList bool, text 
 	if l, isL := v.(val.Listable); isL {
 		var parts []string
 		for i := 0; i < l.Len(); i++ {
-			parts = append(parts, l.Item(i).String())
+			parts = append(parts, refstore.ValText(l.Item(i)))
 		}
 		return strings.Join(parts, "\x1e"), v.Value()
 	}
-	return v.String(), v.Value()
+	return refstore.ValText(v), v.Value()
 }
 
 func c04canonBody(m *meta.Module, sc *c15schema, kids []*gen.SNode, body []*gen.DNode, path []string) {
@@ -62,6 +62,10 @@ func c04canonBody(m *meta.Module, sc *c15schema, kids []*gen.SNode, body []*gen.
 		case "cont":
 			if d.Present {
 				c04canonBody(m, sc, s.Kids, d.Kids, append(path, s.Name))
+			}
+		case "choice":
+			for ci, cs := range s.Cases {
+				c04canonBody(m, sc, cs.Kids, d.Cases[ci], path)
 			}
 		case "list":
 			for _, row := range d.Rows {
@@ -88,6 +92,12 @@ func c04toMap(m *meta.Module, sc *c15schema, kids []*gen.SNode, body []*gen.DNod
 		case "cont":
 			if d.Present {
 				out[s.Name] = c04toMap(m, sc, s.Kids, d.Kids, append(path, s.Name))
+			}
+		case "choice":
+			for ci, cs := range s.Cases {
+				for k, v := range c04toMap(m, sc, cs.Kids, d.Cases[ci], path) {
+					out[k] = v
+				}
 			}
 		case "list":
 			if len(d.Rows) > 0 {
@@ -137,6 +147,8 @@ func C04(c *core.Ctx) {
 			tree := c15data(r, sc, sc.kids, 45+r.Intn(50))
 			c04canonBody(m, sc, sc.kids, tree, nil)
 			want := gen.Canon(sc.kids, tree, false)
+			fkids, ftree := gen.Flatten(sc.kids, tree)
+			modelLine := "data kids upsert ; " + strings.Join(gen.SchemaTokens(fkids), " ") + " ; " + strings.Join(gen.BodyTokens(fkids, ftree), " ") + " ; " + strings.Join(gen.BodyTokens(fkids, gen.EmptyBody(fkids)), " ")
 			input := func(extra map[string]interface{}) map[string]interface{} {
 				o := map[string]interface{}{"yang": y, "tree": want}
 				for k, v := range extra {
@@ -168,8 +180,8 @@ func C04(c *core.Ctx) {
 					c.Distinct(fmt.Sprint("export", si, di, srcKind))
 				}
 				got := errClass(err) + " " + gen.Canon(sc.kids, out, false)
-				lines = append(lines, "data kids upsert ; "+strings.Join(gen.SchemaTokens(sc.kids), " ")+" ; "+strings.Join(gen.BodyTokens(sc.kids, tree), " ")+" ; "+strings.Join(gen.BodyTokens(sc.kids, gen.EmptyBody(sc.kids)), " "))
-				pends = append(pends, pend{"export from " + srcKind, got, sc.kids, input(map[string]interface{}{"source_impl": srcKind, "exported": got})})
+				lines = append(lines, modelLine)
+				pends = append(pends, pend{"export from " + srcKind, got, fkids, input(map[string]interface{}{"source_impl": srcKind, "exported": got})})
 			}
 			// (b) JSON round trip through the library's own writer and reader
 			for cfg := 0; cfg < 4; cfg++ {
@@ -200,8 +212,8 @@ func C04(c *core.Ctx) {
 				if nontrivial {
 					c.Distinct(fmt.Sprint("json", si, di, cfg))
 				}
-				lines = append(lines, "data kids upsert ; "+strings.Join(gen.SchemaTokens(sc.kids), " ")+" ; "+strings.Join(gen.BodyTokens(sc.kids, tree), " ")+" ; "+strings.Join(gen.BodyTokens(sc.kids, gen.EmptyBody(sc.kids)), " "))
-				pends = append(pends, pend{desc, got, sc.kids, input(map[string]interface{}{"json": buf.String(), "read_back": got})})
+				lines = append(lines, modelLine)
+				pends = append(pends, pend{desc, got, fkids, input(map[string]interface{}{"json": buf.String(), "read_back": got})})
 			}
 		}
 	}
